@@ -60,6 +60,8 @@ func (e *Engine) runInit(pkg *ssa.Package) {
 	savedDepth := e.depth
 	savedSteps := e.steps
 	savedBudget := e.stepBudget
+	savedSpec, savedSpecLimit := e.specDepth, e.specLimit
+	e.specDepth = 0
 	e.journalOn = false
 	e.inInit++
 	e.stepBudget = 1 << 40
@@ -69,6 +71,7 @@ func (e *Engine) runInit(pkg *ssa.Package) {
 		e.depth = savedDepth
 		e.steps = savedSteps
 		e.stepBudget = savedBudget
+		e.specDepth, e.specLimit = savedSpec, savedSpecLimit
 		e.inInit--
 	}()
 	e.runInitBody(initFn)
